@@ -18,7 +18,7 @@ RES = ["thread", "async-thread", "main-thread"]
 # generator
 # ------------------------------------------------------------------------------------------------
 def gen_shape(rng, nmin=2, nmax=9, mix=None, pri="small", seq_rate=0.2, flags=True, reuse=True, mc_max=4,
-              kinds=True, max_deps=3):
+              kinds=True, max_deps=3, setup_rate=0.0):
     n = rng.randint(nmin, nmax)
     mix = mix or rng.choice(["thread", "async", "mixed", "mixed_main", "thread_main", "async_main"])
     fns = {}
@@ -78,6 +78,16 @@ def gen_shape(rng, nmin=2, nmax=9, mix=None, pri="small", seq_rate=0.2, flags=Tr
         if nd["active"] is not None:
             flagged.add(i)
         nodes.append(nd)
+    if setup_rate:
+        # setup nodes: an ancestor-closed set of call sites without DAG argument / flag / reuse
+        st = set()
+        for i, nd in enumerate(nodes):
+            uses_param = any(a[0] == "p" for a in nd["args"])
+            reused = sum(1 for m in nodes if m["fn"] == nd["fn"]) > 1
+            dps = [a[1] for a in list(nd["args"]) + list(nd["kwargs"].values()) if a[0] == "n"]
+            if not uses_param and not reused and nd["active"] is None and all(q in st for q in dps) and rng.random() < setup_rate:
+                st.add(i)
+                fns[nd["fn"]]["setup"] = True
     spec = {
         "name": "prog",
         "params": ["x"],
@@ -109,6 +119,10 @@ def call_dag(d, op, args):
         if is_async:
             return asyncio.run(_acall(d, args))
         return d(*args)
+    if kind == "setup":
+        if is_async:
+            return asyncio.run(d.setup())
+        return d.setup()
     if kind == "executor":
         kw = {}
         for k in ("target_nodes", "exclude_nodes", "root_nodes"):
@@ -125,7 +139,11 @@ async def _acall(f, args):
     return await f(*args)
 
 
-def run_case(spec, op=None, args=None, faults=(), controlled=True, chooser=None, d=None, plain=None):
+def setup_sites(spec):
+    return {i for i, nd in enumerate(spec["nodes"]) if spec["fns"][nd["fn"]].get("setup")}
+
+
+def run_case(spec, op=None, args=None, faults=(), controlled=True, chooser=None, d=None, plain=None, pre_values=None):
     """Build (unless given), run the reference, run tawazi under the monitors, return a case record."""
     op = op or {"kind": "call"}
     from .sym import Sym
@@ -140,8 +158,11 @@ def run_case(spec, op=None, args=None, faults=(), controlled=True, chooser=None,
         idx = {s: i for i, s in enumerate(ids)}
         conv = lambda l: None if l is None else [idx[a] for a in l]  # noqa: E731
         sel = S.closure(spec, conv(op.get("root_nodes")), conv(op.get("exclude_nodes")), conv(op.get("target_nodes")))
+    if op.get("kind") == "setup":
+        sel = setup_sites(spec)
+    pre_values = dict(pre_values or {})
     # the reference is evaluated fault-free: it supplies activity / values of everything up to the failure
-    ref = S.run_reference(spec, args, plain, enabled=sel)
+    ref = S.run_reference(spec, args, plain, enabled=sel, env_values=pre_values)
     B.reset_log()
     probes.reset_counts()
     probes.State.faults = set(faults)
@@ -157,7 +178,7 @@ def run_case(spec, op=None, args=None, faults=(), controlled=True, chooser=None,
         probes.State.faults = set()
     log = B.snapshot()
     return {"spec": spec, "op": op, "args": args, "faults": list(faults), "ref": ref, "res": res, "log": log,
-            "ids": ids, "sel": sel, "dag": d, "plain": plain}
+            "ids": ids, "sel": sel, "dag": d, "plain": plain, "precomputed": set(pre_values)}
 
 
 # ------------------------------------------------------------------------------------------------
@@ -175,7 +196,9 @@ class View:
         toks = [e["token"] for e in log if e["kind"] == "POOL_NEW"]
         self.tokens = toks
         self.tok = toks[-1] if toks else None
-        self.evs = [e for e in log if e.get("token") == self.tok]
+        # one client operation = one execution, however many thread pools the scheduler chose to create for it
+        tokset = set(toks)
+        self.evs = [e for e in log if e.get("token") in tokset]
         self.all = log
         self.mc = spec.get("mc", 1)
         ex_fut2node, task2fut = {}, {}
